@@ -173,6 +173,28 @@ def run(ctx) -> list[Inst]:
                             isinstance(s, ast.Subscript) and isinstance(s.slice, ast.Name) and s.slice.id in names
                             for s in ast.walk(arg))
                         keyed = uses_key and subscripted_by_key and 'entry_points' in stmt_text(it)
+                        if not keyed and 'entry_points' in stmt_text(it):
+                            # the same through named locals: the loop runs over the keys (or items) of the serialised
+                            # entry_points mapping - distinct keys - and the asset of the tuple is computed from the key
+                            over_items = isinstance(it, ast.Call) and isinstance(it.func, ast.Attribute) \
+                                and it.func.attr in ('items', 'keys')
+                            over_keys = isinstance(it, (ast.Subscript, ast.Name, ast.Attribute))
+                            key = names[0]
+                            derived = {key}
+                            changed = True
+                            while changed:
+                                changed = False
+                                for st in ast.walk(h.ast):
+                                    if isinstance(st, ast.Assign) and any(
+                                            isinstance(x, ast.Name) and x.id in derived for x in ast.walk(st.value)):
+                                        for t in st.targets:
+                                            for x in ast.walk(t):
+                                                if isinstance(x, ast.Name) and x.id not in derived:
+                                                    derived.add(x.id)
+                                                    changed = True
+                            first_names = {x.id for x in ast.walk(arg.elts[0]) if isinstance(x, ast.Name)}
+                            if (over_items or over_keys) and first_names & derived:
+                                keyed = True
                 if keyed:
                     insts.append(Inst(RULE, fname, construct, 'ok', msg='one tuple per key of the entry_points mapping',
                                       file=rel, line=n.lineno, props=props))
